@@ -49,6 +49,12 @@ def rand_vals(rng, ty, n, full=False):
                 a, b = struct.unpack('<ff', struct.pack('<ff', a, b))
             out.append((a, b) if ty[0] == 'c' else a)
             continue
+        if full and ty[0] in 'ui' and r < 0.5:
+            # the whole range of the type, boundaries first (top bit set, all ones, most negative)
+            wbits = W[ty] * 8
+            lo, hi = (0, (1 << wbits) - 1) if ty[0] == 'u' else (-(1 << (wbits - 1)), (1 << (wbits - 1)) - 1)
+            out.append(rng.choice([lo, hi, hi - 1, lo + 1, (hi + lo + 1) // 2, (hi + lo + 1) // 2 - 1, rng.randint(lo, hi), rng.randint(lo, hi)]))
+            continue
         if r < 0.45:
             v = rng.choice(pool)           # equal neighbours: SIE runs
         elif r < 0.55:
@@ -130,7 +136,7 @@ def build(rng, enc, ty, order):
             s = rng.randint(foff * spf, max(foff * spf, length)) - shift   # overwrite somewhere inside
         if s + shift < foff * spf or s < 0:
             s = max(0, foff * spf - shift) if foff * spf - shift >= 0 else length
-        vals = rand_vals(rng, cty if w != "bt" else 'u8', n, full=(w in ("r", "ph") and ty[0] in 'fc' and rng.random() < 0.5))
+        vals = rand_vals(rng, cty if w != "bt" else 'u8', n, full=(w in ("r", "ph") and (ty[0] in 'fc' or cty == ty) and rng.random() < 0.5))
         if w == "bt":
             vals = [v % 16 for v in vals]
         L.append("put %s 0 %d %s %s" % (w, s, cty, ",".join(bits(cty, v) for v in vals)))
